@@ -279,6 +279,10 @@ RULE = ("every sequence (length <= 3 over all 28 operations; length <= 5 inside 
         "a shutdown call, a new store opens the same file and reads everything back) on two real DB files: "
         "single_connection=True vs per-call connections; results and raised exceptions compared after every step; "
         "non-trivial = sequences of length >= 2")
+from vmc.tables import _ROUND6 as _R6  # noqa: E402
+
+RULE += _R6["C21"]
+
 
 
 def run(tier: str, seed: int) -> Any:
